@@ -28,8 +28,12 @@ claimed = {
          "function-level: obligations that need facts from callers and do not discharge are NOT claimed (listed as unproved_unclaimed in the evidence); receivers of methods are assumed non-nil; 'does not affect other connections' beyond no-panic is outside", "4/C13"),
  "C14": ("proof", "for all field values / all 64-byte inputs: Decode(Encode(x)) == x and Encode(Decode(b)) == b on every defined byte for all 20 command/result types (real Encode/Decode bodies composed by harness functions), and the LOCK/UNLOCK request and response frames match the README offsets byte for byte",
          "string fields (CALL method name, error type, leader host) are excluded from the value round trip (strings.Trim not modelled); server-side hand-inlined codecs, text parser chunk independence and text<->binary equivalence not yet under contract", "4/C14"),
+ "C16": ("proof", "compaction, function by function: findRewriteAofFiles never selects the append file that is being written (nor one ahead of it); the per-record filter of loadRewriteAofFiles asks the engine about exactly the record's terms (key, LockId, flags, Count, Rcount, value, and the lifetime left now per the C07 specification) and copies a record, and then its value, only after that one positive answer; clearRewriteAofFiles is required to have the compacted file renamed into place before any input is removed - this fails on the pinned tree and is a recorded known finding with a demonstration",
+         "the engine's HasLock answer, the record stream reader (C08) and the appended bytes are taken as given; equality of the recoverable state before and after a compaction as a whole-directory statement, concurrent appends during a compaction, and crash points other than the remove/rename order are outside per-function contracts", "4/C16"),
  "C20": ("proof", "the three segmented array deques of server/queue.go (LockQueue, LockCommandQueue, LockManagerQueue): representation invariant qInv established by the constructor and preserved by Push, PushLeft, Pop, PopRight, Reset and Rellac; each of these, and Head, Tail, IterNodes, IterNodeQueues, is proved against the abstract view (the cells between the head and tail cursors in node-major order): which cell receives or yields the element, where the cursors move (including every node-boundary crossing and node allocation), and that every other cell keeps its element; Len exact while the cursors are at most one node apart",
          "Resize, Restructuring, Shrink and freeQueue are NOT under contract (Resize leaves allocated nodes above nodeIndex, outside qInv, so the proofs cover queues on which these four have not been applied); the key-level queues built on top (LockManagerLockQueue, LockManagerWaitQueue, ring and priority ring queues, LongWaitLockQueue) keep trusted contracts; Len beyond two nodes is not proved equal to the element count (32-bit sum); fewer than 2^30 nodes is assumed by the growing operations; encapsulation (no code outside the methods writes the fields) is not checked; constructor arguments at call sites are assumed to satisfy C20.ctor", "4/C20"),
+ "C07": ("proof", "what is persisted for a hold and what a restart makes of it, function by function: (1) the remaining lifetime written into a record (GetAofLockExpriedTime) and the lifetime a restart hands back to the engine (GetLockCommandExpriedTime) equal their specification functions for every unit, and two lemmas over these functions show the restored deadline t + life + 1 is within one unit plus a second of the original deadline for every persist time and restart time - the wrap of the longest lifetime found by this obligation is repaired (fix commit); (2) AofLock.Encode and Decode establish the same field/byte layout (round trip of the 64-byte record); (3) AofChannel.Push copies key, LockId, flags, Count/Rcount, record time min(now, deadline) and the value into the record; (4) the persist-when rule of AddExpried, the persisted mark set by PushLockAof / PushUnLockAof, a partially released hold keeps its mark (UnLock site), never-persist and persist-immediately flags set aofTime (AddLock); (5) Aof.PushLock writes the value right behind its record before the file can rotate",
+         "assumed at AofChannel.Push: server clock sane and deadline at most 0xffff units + 1 ahead (engine invariant); Flush, RewriteAofFile and the replication publish are cut (modifies all); the replay path through LoadLock -> LockDB.Lock and the exactness of the restored set ('exactly the holds') are a whole-history statement not decided here; restart time is assumed inside the hold's lifetime (the loader skips expired records)", "4/C07"),
  "C08": ("proof", "reader side of crash recovery: AofFile.ReadLock hands a record to the replayer only if every byte of the length it decoded was delivered by the file in this call (ghost count of delivered bytes), ReadLockData likewise for the 4-byte length and the whole value (loop invariants over partial reads), LoadAofFile keeps the record stream and the value stream in step (the value of every data-bearing record is consumed before the next record is read, loop invariant over ghost record numbers); Open in append mode is required to leave the file on the 64-byte grid - this obligation fails on the pinned tree and is a recorded known finding; the ReadLock defect found by its obligation is repaired (fix commit)",
          "assumed: bufio.Reader over *os.File delivers 0..len(p) bytes and reports an error only with zero bytes; the replay callback of LoadAofFile neither reads the files nor rewrites the decoded record; writer side (Flush writes records before values, Sync, torn value file after a crash between the two writes), 'some prefix' as a statement about the persisted history, and the second-restart clause are outside what a per-function contract decides here", "4/C08"),
  "C12": ("proof", "CompareAofId equals the specified log-position order for all 2^256 input pairs; acceptor handlers (remote and self proposal/commit): accepted and committed numbers never decrease, a proposal is accepted only above both and only while no commit is outstanding, a commit only for exactly the accepted number, once, and the reply is an ack iff the state changed; DoVote only ever selects a data-bearing member of non-zero weight (loop invariant); vote/proposal/commit succeed only with len(members)/2+1 answers",
